@@ -10,8 +10,9 @@ its contents are the entry as last mutated and the slot values demanded by C13; 
 flight and the owner, all handles and (all flush guards or one force-flush guard) are gone, the entry has
 been appended.  The clauses correspond one by one to theorems about the micro-step model
 (`c06_at_most_once`, `c06_not_early`, `c06_not_late`, `c06_content`, `c13_wait_never_lost`,
-`c13_closed_iff_sent`, `c13_not_sent`); a formal refinement "every schedule of the model yields an accepted
-history" is NOT proved (see notes/C06.md).  The harness evaluates `accept` on histories recorded from real
+`c13_closed_iff_sent`, `c13_not_sent`); the refinement "every schedule of the model yields an accepted
+history" is proved in `Props/C06Refine.lean` (`c06_model_histories_accepted`, history = `historyOf` of
+`Model/KeepAliveHistory.lean`) and `Props/C13Refine.lean`.  The harness evaluates `accept` on histories recorded from real
 threads and compares its verdict with an independently written Rust oracle.
 -/
 namespace KeepAlive.Spec
